@@ -45,6 +45,12 @@ pub struct ExecCfg {
     pub max_steps: u64,
     /// cancellation fault: drop spawned task #`0` instead of performing its `1`-th poll (1-based)
     pub cancel: Option<(usize, u32)>,
+    /// an execution in which a task spins on zero-length timers is an outcome the scene's oracle
+    /// judges (EndReason::Spin); otherwise it is a machinery error
+    pub spin_is_outcome: bool,
+    /// the case's outcome on the real tokio runtime (paused clock) is compared with the explored
+    /// set; off for programs whose timers are shorter than that clock's granularity
+    pub real_crosscheck: bool,
 }
 
 impl Default for ExecCfg {
@@ -59,6 +65,8 @@ impl Default for ExecCfg {
             max_choice_points: 5_000,
             max_steps: 100_000,
             cancel: None,
+            spin_is_outcome: false,
+            real_crosscheck: true,
         }
     }
 }
@@ -87,6 +95,9 @@ pub enum ExecEvent {
 pub enum EndReason {
     Quiescent,
     Horizon,
+    /// a task went through thousands of zero-length timers within one poll: it never yields, the
+    /// thread that runs it is lost (the execution is cut there)
+    Spin,
 }
 
 struct Task {
@@ -131,6 +142,9 @@ struct State {
     hash: u64,
     divergence: Option<String>,
     capped: Option<&'static str>,
+    /// zero-length timers created during the poll that is running
+    zero_sleeps_this_poll: u32,
+    spinning: bool,
     on_event: Option<Rc<dyn Fn(ExecEvent, u64, u64)>>,
 }
 
@@ -346,6 +360,7 @@ impl Inner {
                 st.now = deadline;
             }
             let now = st.now;
+            crate::vclock::set(Some(now));
             st.hash = mix(st.hash, 0x71AE ^ now);
             st.timers
                 .iter_mut()
@@ -368,6 +383,7 @@ impl Inner {
             let mut st = self.st.borrow_mut();
             st.step += 1;
             st.current = Some(id);
+            st.zero_sleeps_this_poll = 0;
             let cancel_cfg = st.cfg.cancel;
             let t = &mut st.tasks[id as usize];
             t.runnable_since = u64::MAX;
@@ -432,9 +448,25 @@ thread_local! {
     static EPOCH: std::cell::Cell<u64> = const { std::cell::Cell::new(0) };
 }
 
+/// zero-length timers one poll may create before the task counts as spinning
+const SPIN_LIMIT: u32 = 2_000;
+
+/// panic payload that unwinds a spinning task
+pub struct SpinAbort;
+
 fn new_sleep(inner: &Inner, dur: Duration) -> VSleep {
     let mut st = inner.st.borrow_mut();
-    let ticks = dur.as_millis() as u64;
+    // one tick = 1 ms; a shorter non-zero duration still takes time (rounded up, as tokio's wheel
+    // does) - only a zero duration is ready at once
+    let ticks = dur.as_micros().div_ceil(1000).min(u64::MAX as u128) as u64;
+    if ticks == 0 && st.current.is_some() {
+        st.zero_sleeps_this_poll += 1;
+        if st.zero_sleeps_this_poll > SPIN_LIMIT {
+            st.spinning = true;
+            drop(st);
+            std::panic::panic_any(SpinAbort);
+        }
+    }
     let deadline = st.now.saturating_add(ticks);
     st.timers.push(Timer {
         deadline,
@@ -616,6 +648,8 @@ pub fn run_one(
             hash: 0x9E37_79B9_7F4A_7C15,
             divergence: None,
             capped: None,
+            zero_sleeps_this_poll: 0,
+            spinning: false,
             on_event,
         }),
         wakeq: Arc::new(WakeQ(Mutex::new(Vec::new()))),
@@ -638,6 +672,7 @@ pub fn run_one(
         futures_util::verif_set_select_chooser(Some(Box::new(move |n| n - 1)));
     }
 
+    crate::vclock::set(Some(0));
     setup(&Exec(ExecKind::Virtual(inner.clone())));
 
     let end = loop {
@@ -645,6 +680,9 @@ pub fn run_one(
             break e;
         }
         let st = inner.st.borrow();
+        if st.spinning {
+            break EndReason::Spin;
+        }
         if st.capped.is_some() {
             break EndReason::Quiescent;
         }
@@ -654,6 +692,9 @@ pub fn run_one(
             break EndReason::Quiescent;
         }
     };
+    if end == EndReason::Spin && !inner.st.borrow().cfg.spin_is_outcome {
+        inner.st.borrow_mut().capped = Some("a_task_spins_on_zero_length_timers");
+    }
 
     // facts
     let (choices, steps, fresh, now, hash, live, divergence, capped) = {
@@ -698,6 +739,7 @@ pub fn run_one(
         }
     }
     futures_util::verif_set_select_chooser(None);
+    crate::vclock::set(None);
     futures_timer::verif_set_delay_provider(None);
     hannibal::verif::uninstall();
     CUR.with(|c| *c.borrow_mut() = None);
